@@ -72,5 +72,17 @@ def improperOfList : List Term → Term → Term
   | [], tl => tl
   | t :: ts, tl => .cons t (improperOfList ts tl)
 
+/-- `LTerm::iter`: the elements of a list term and its final tail (`nil` for a proper list) -/
+def listElems : Term → List Term × Term
+  | .cons h t => let (es, tl) := listElems t; (h :: es, tl)
+  | t => ([], t)
+
+/-- the items `iter()` yields: elements, then the improper tail if it is not `nil` -/
+def iterItems (t : Term) : List Term :=
+  let (es, tl) := t.listElems
+  match tl with
+  | .nil => es
+  | o => es ++ [o]
+
 end Term
 end Pv
